@@ -183,7 +183,11 @@ class C10(Engine):
                     ops.append(["exit"])
             elif kind == "launch_kv":
                 sv = [v for v in pool if v[1] == "str" and v[0].isidentifier()]
-                if sv:
+                if sv and rng.random() < 0.45:
+                    # the per-command form inside a pipeline: `a | $X=v b | c` - only b may see it
+                    nst = rng.choice((2, 3, 3))
+                    ops.append(["launch_pipe_kv", rng.choice(sv)[0], rng.choice(("x", "with space", "ü")), nst, rng.randrange(nst)])
+                elif sv:
                     ops.append(["launch_kv", rng.choice(sv)[0], rng.choice(("x", "with space", "ü"))])
             else:
                 ops.append([kind])
@@ -228,6 +232,8 @@ class C10(Engine):
         env["XONSH_SUBPROC_RAISE_ERROR"] = False
         ctx.add_stub("envcmd")
         simproc.SCRIPTS["e"] = [["exit", 0]]
+        for j_ in range(3):
+            simproc.SCRIPTS[f"s{j_}"] = [["exit", 0]]
         fam_of = {v[0]: v[1] for v in case["pool"]}
         for name, fam, how in case["pool"]:
             if how == "register":
@@ -404,7 +410,7 @@ class C10(Engine):
                 if V:
                     break
                 kind = op[0]
-                if kind in ("set", "setstr", "enter", "exit", "read", "toggle_os", "launch", "launch_kv", "launch_alias"):
+                if kind in ("set", "setstr", "enter", "exit", "read", "toggle_os", "launch", "launch_kv", "launch_pipe_kv", "launch_alias"):
                     pending_held.clear()  # these steps always go through the environment object
                 if kind in ("set", "setstr"):
                     _, name, val = op
@@ -599,6 +605,27 @@ class C10(Engine):
                     child = launch("alias")
                     if child is not None:
                         judge(child, "alias")
+                elif kind == "launch_pipe_kv":
+                    _, kname, kval, nst, pos = op
+                    touched.add(kname)
+                    src = " | ".join((f"${kname}={kval!r} " if j_ == pos else "") + f"envcmd s{j_}" for j_ in range(nst)) + "\n"
+                    n0 = len(simproc.ALL)
+                    try:
+                        ctx.exec_src(src)
+                    except Exception as e:  # noqa: BLE001
+                        viol("no.exception", f"{src.strip()} raised {type(e).__name__}: {e}\n{traceback.format_exc()[-900:]}", exc=type(e).__name__)
+                        continue
+                    ctx.quiesce(5.0)
+                    by_stage = {p_.args[1]: p_ for p_ in simproc.ALL[n0:] if len(p_.args) > 1}
+                    probes["per_command_overlay_in_pipeline"] = probes.get("per_command_overlay_in_pipeline", 0) + 1
+                    for j_ in range(nst):
+                        p_ = by_stage.get(f"s{j_}")
+                        if p_ is None:
+                            viol("no.exception", f"{src.strip()}: stage {j_} was not started")
+                            break
+                        judge(p_.env, f"pipe{nst}:stage{j_}:prefix_on{pos}", (kname, kval) if j_ == pos else None)
+                        if V:
+                            break
                 elif kind == "launch_kv":
                     child = launch("kv", (op[1], op[2]))
                     if child is not None:
